@@ -28,6 +28,7 @@ TRUSTED = ["numpy concatenate / tobytes", "hashlib.sha1 of the file bytes"]
 ASSUMPTIONS = ["chunks have >= 1 row; one writer at a time; the file is judged only while no write handle is open "
                "(stdio buffering makes the on-disk state mid-handle unspecified)",
                "text histories use integer and simple ASCII string fields so equality is exact (float text precision is C04)"]
+THOROUGH_ROUNDS = 3      # the thorough tier runs the generator over this many derived seeds
 REQUIRED = {"quick": {"C03.history": 400, "C03.state": 1500, "C03.reject": 250},
             "thorough": {"C03.history": 6000, "C03.state": 22000, "C03.reject": 4000}}
 DELIMS = [None, None, ",", "\t", " ", ":"]
